@@ -101,7 +101,79 @@ func NewDynamic(seed int64, opt ...Options) *Universe {
 		}
 		u.Shapes = append(u.Shapes, s)
 	}
+	// top-level values that are encoded / decoded with serix.WithTypeSettings
+	for i, n := 0, g.rng.Intn(3); i < n; i++ {
+		u.Shapes = append(u.Shapes, g.genTop())
+	}
 	return u
+}
+
+// genTop builds a top-level map / slice / byte slice / string shape whose settings come
+// (partly) from a serix.WithTypeSettings option. Precedence modelled: option > registry,
+// per setting (length prefix, ordering flag, array rules as one unit).
+func (g *dynGen) genTop() *Shape {
+	r := g.rng
+	var s *Shape
+	switch x := r.Intn(10); {
+	case x < 5:
+		key, _ := g.gen(g.o.MaxDepth-1, false, true)
+		elem, _ := g.gen(g.o.MaxDepth-1, false, false)
+		s = &Shape{Kind: Map, Key: key, Elem: elem, T: reflect.MapOf(key.T, elem.T)}
+	case x < 8:
+		var elem *Shape
+		for elem == nil || elem.Kind == Uint8 {
+			elem, _ = g.gen(g.o.MaxDepth-1, false, false)
+		}
+		s = &Shape{Kind: Slice, Elem: elem, T: reflect.SliceOf(elem.T)}
+	case x < 9:
+		s = &Shape{Kind: Bytes, T: goTypes[Bytes]}
+	default:
+		s = &Shape{Kind: String, T: goTypes[String]}
+	}
+	g.seen[s.T] = true
+	top := &TopSettings{}
+	e, ok := g.u.reg[s.T]
+	if ok {
+		s.LP, s.R = e.lp, e.r
+	}
+	if !ok || e.lp == 0 || r.Intn(2) == 0 {
+		top.LP = g.lp()
+		if g.o.SafeAlloc && (s.Kind == String || s.Kind == Bytes) && top.LP == 4 {
+			top.LP = 2
+		}
+		s.LP = top.LP
+	}
+	if s.Kind == Map || s.Kind == Slice {
+		switch r.Intn(3) {
+		case 0:
+			top.R.LexSet, top.R.AutoOrder = true, false
+		case 1:
+			top.R.LexSet, top.R.AutoOrder = true, true
+		}
+		if top.R.LexSet {
+			s.R.LexSet, s.R.AutoOrder = true, top.R.AutoOrder
+		}
+	}
+	if r.Intn(2) == 0 {
+		top.HasRules = true
+		if r.Intn(2) == 0 {
+			top.R.Min, top.R.Max = g.bounds()
+		}
+		if s.Kind == Map || s.Kind == Slice {
+			switch r.Intn(5) {
+			case 0:
+				top.R.ValOrder = true
+			case 1:
+				top.R.NoDup = true
+			case 2:
+				top.R.ValOrder, top.R.NoDup = true, true
+			}
+		}
+		// the option's ArrayRules replace the registered ones as a whole
+		s.R = Rules{LexSet: s.R.LexSet, AutoOrder: s.R.AutoOrder, Min: top.R.Min, Max: top.R.Max, ValOrder: top.R.ValOrder, NoDup: top.R.NoDup}
+	}
+	s.Top = top
+	return s
 }
 
 func (u *Universe) nextID() int { u.uid++; return u.uid }
@@ -122,10 +194,24 @@ func (u *Universe) register(t reflect.Type, e *regEntry) {
 			ts = ts.WithObjectType(e.code.V)
 		}
 	}
-	if e.r.AutoOrder {
-		ts = ts.WithLexicalOrdering(true)
+	if e.r.AutoOrder || e.r.LexSet {
+		ts = ts.WithLexicalOrdering(e.r.AutoOrder)
 	}
-	if !(e.r.Min == 0 && e.r.Max == 0 && !e.r.ValOrder && !e.r.NoDup && e.r.OneOfEach == 0 && len(e.r.MustOccur) == 0) {
+	if ar := arrayRulesOf(e.r); ar != nil {
+		ts = ts.WithArrayRules(ar)
+	}
+	if err := u.API.RegisterTypeSettings(reflect.Zero(t).Interface(), ts); err != nil {
+		panic(fmt.Sprintf("sergen: RegisterTypeSettings(%s): %v", t, err))
+	}
+	u.reg[t] = e
+}
+
+func arrayRulesOf(r Rules) *serix.ArrayRules {
+	if r.noArrayRules() {
+		return nil
+	}
+	{
+		e := struct{ r Rules }{r}
 		ar := &serix.ArrayRules{Min: e.r.Min, Max: e.r.Max}
 		if e.r.ValOrder {
 			ar.ValidationMode |= serializer.ArrayValidationModeLexicalOrdering
@@ -145,12 +231,31 @@ func (u *Universe) register(t reflect.Type, e *regEntry) {
 				ar.MustOccur[c] = struct{}{}
 			}
 		}
+		return ar
+	}
+}
+
+// TopOptions returns the serix options a top-level shape is encoded and decoded with
+// (nil unless the shape carries TopSettings).
+func TopOptions(s *Shape) []serix.Option {
+	if s.Top == nil {
+		return nil
+	}
+	ts := serix.TypeSettings{}
+	if s.Top.LP != 0 {
+		ts = ts.WithLengthPrefixType(lpType(s.Top.LP))
+	}
+	if s.Top.R.LexSet {
+		ts = ts.WithLexicalOrdering(s.Top.R.AutoOrder)
+	}
+	if s.Top.HasRules {
+		ar := arrayRulesOf(s.Top.R)
+		if ar == nil {
+			ar = &serix.ArrayRules{}
+		}
 		ts = ts.WithArrayRules(ar)
 	}
-	if err := u.API.RegisterTypeSettings(reflect.Zero(t).Interface(), ts); err != nil {
-		panic(fmt.Sprintf("sergen: RegisterTypeSettings(%s): %v", t, err))
-	}
-	u.reg[t] = e
+	return []serix.Option{serix.WithTypeSettings(ts)}
 }
 
 func lpType(w uint8) serix.LengthPrefixType {
@@ -240,6 +345,9 @@ func (g *dynGen) gen(depth int, inField bool, keyPos bool) (*Shape, string) {
 		case String, Bytes:
 			s := &Shape{Kind: k, T: goTypes[k]}
 			tag := g.settle(s, inField, false)
+			if s.LP == 0 {
+				continue
+			}
 			return s, tag
 		case ByteArray:
 			n := []int{0, 1, 2, 4, 8, 20, 32, 33}[r.Intn(8)]
@@ -290,12 +398,18 @@ func (g *dynGen) gen(depth int, inField bool, keyPos bool) (*Shape, string) {
 				s.T = reflect.ArrayOf(s.N, elem.T)
 			}
 			tag := g.settle(s, inField, true)
+			if s.LP == 0 {
+				continue
+			}
 			return s, tag
 		case Map:
 			key, _ := g.gen(depth+1, false, true)
 			elem, _ := g.gen(depth+1, false, false)
 			s := &Shape{Kind: Map, Key: key, Elem: elem, T: reflect.MapOf(key.T, elem.T)}
 			tag := g.settle(s, inField, false)
+			if s.LP == 0 {
+				continue
+			}
 			return s, tag
 		case Struct:
 			var code *Code
@@ -355,10 +469,35 @@ func (g *dynGen) settle(s *Shape, inField bool, sliceRules bool) string {
 	e, ok := g.u.reg[s.T]
 	first := !g.seen[s.T]
 	g.seen[s.T] = true
-	if !ok && (!inField || r.Intn(3) == 0) {
+	create := !inField || r.Intn(3) == 0
+	if s.Kind == Map && first {
+		create = !inField || r.Intn(4) != 0 // maps get registered settings most of the time: that is where the ordering flag lives
+	}
+	if !ok && create {
 		e = &regEntry{lp: lp()}
+		if inField && first && r.Intn(5) == 0 {
+			e.lp = 0 // registered settings without a length prefix type: the struct tag supplies it
+		}
 		if first && r.Intn(3) == 0 {
 			e.r.Min, e.r.Max = g.bounds()
+		}
+		if first && s.Kind == Map {
+			// every ordering-related knob explicitly, in all combinations: flag unset / false / true,
+			// with and without array rules (bounds above; validation modes here)
+			switch r.Intn(3) {
+			case 0:
+				e.r.LexSet, e.r.AutoOrder = true, false
+			case 1:
+				e.r.LexSet, e.r.AutoOrder = true, true
+			}
+			switch r.Intn(6) {
+			case 0:
+				e.r.ValOrder = true
+			case 1:
+				e.r.NoDup = true
+			case 2:
+				e.r.ValOrder, e.r.NoDup = true, true
+			}
 		}
 		if first && sliceRules && s.Elem != nil {
 			switch r.Intn(8) {
@@ -374,6 +513,11 @@ func (g *dynGen) settle(s *Shape, inField bool, sliceRules bool) string {
 				e.r.ValOrder, e.r.NoDup = true, true
 			case 5:
 				e.r.AutoOrder = true // ordering flag without the validation mode: no sorting happens
+			}
+			if e.r.AutoOrder {
+				e.r.LexSet = true
+			} else if r.Intn(3) == 0 {
+				e.r.LexSet = true // explicit WithLexicalOrdering(false): keep the given order
 			}
 			if s.Elem.Kind == Iface {
 				if r.Intn(2) == 0 {
@@ -392,12 +536,13 @@ func (g *dynGen) settle(s *Shape, inField bool, sliceRules bool) string {
 		s.LP, s.R = e.lp, e.r
 	}
 	if inField {
-		if !ok || r.Intn(4) == 0 {
+		if !ok || e.lp == 0 || r.Intn(4) == 0 {
 			s.LP, s.TagLP = lp(), true
 			tag += ",lenPrefix=" + lpName(s.LP)
 		}
-		if (!ok || e.r.zero()) && r.Intn(3) == 0 {
-			s.R = Rules{}
+		if (!ok || e.r.noArrayRules()) && r.Intn(3) == 0 {
+			// tag min/max create the ArrayRules; the ordering flag is a separate setting and stays
+			s.R = Rules{LexSet: s.R.LexSet, AutoOrder: s.R.AutoOrder}
 			s.R.Min, s.R.Max = g.bounds()
 			s.TagMM = true
 			if s.R.Min != 0 {
